@@ -1,3 +1,4 @@
 pub mod iso;
+pub mod refiri;
 pub mod refnq;
 pub mod terms;
